@@ -1,3 +1,4 @@
 pub mod sx;
 pub mod pure;
 pub mod state;
+pub mod expr;
